@@ -41,8 +41,10 @@ KINDS = {
     # comma inside a quantifier)
     'PG': ('threading', 'pool-12', True, False),
     'PN': ('threading', 'pool-12345', True, False),
+    # matched by the third pattern only if the first one's inline flag leaks
+    'XI': ('threading', 'XIgn-upper', True, False),
 }
-IGNORE = ['ign', r'pool-\d{1,3}$']
+IGNORE = ['(?i)IGN', r'pool-\d{1,3}$', 'xi']
 KL = list(KINDS)
 
 
